@@ -1,20 +1,92 @@
 package props
 
 import (
+	"strings"
 	"testing"
+
+	"pgregory.net/rapid"
 )
+
+const distinctRule = "; distinct = distinct sequences of (command, input mode, fields present, target's prior state, model verdict, outcome)"
+
+func anyStep(h []stepInfo, f func(s stepInfo) bool) bool {
+	for _, s := range h {
+		if f(s) {
+			return true
+		}
+	}
+	return false
+}
+
+func countSteps(h []stepInfo, f func(s stepInfo) bool) int {
+	n := 0
+	for _, s := range h {
+		if f(s) {
+			n++
+		}
+	}
+	return n
+}
+
+func hasOwner(s stepInfo, owner string) bool {
+	for _, r := range s.Out.Reasons {
+		if r.Owner == owner {
+			return true
+		}
+	}
+	return false
+}
+
+func TestC05(t *testing.T) {
+	RunSeq(t, SeqCheck{
+		Prop: "C05",
+		Profile: Profile{Name: "compaction", Weights: weightsWith(map[string]int{"fork_compact": 9, "compact": 6, "prune_yes": 7, "set": 30, "claim": 9, "claim_id": 6, "plan": 4}),
+			BadRef: 4, Spoil: 3, Results: 18, MinSteps: 8, MaxSteps: 34},
+		Rule: "random command histories with a fork point: the store is copied, the copy compacted (and compacted again), and every later command is run on both copies; non-trivial = before a compaction the history has a prune, a re-claim/unclaim, a title/body/epic change, >= 2 results on one task or a reopen, and >= 1 mutation follows the fork" + distinctRule,
+		NonTrivial: func(h []stepInfo) bool {
+			fork := -1
+			for i, s := range h {
+				if s.Out.Op.Kind == "fork_compact" || (s.Out.Op.Kind == "compact" && s.Out.Accepted) {
+					fork = i
+					break
+				}
+			}
+			if fork < 0 {
+				return false
+			}
+			rich := anyStep(h[:fork], func(s stepInfo) bool {
+				op := s.Out.Op
+				if !s.Out.Accepted {
+					return false
+				}
+				switch op.Kind {
+				case "prune_yes":
+					return true
+				case "set":
+					return op.Title != nil || op.Body != nil || op.Epic != nil || op.Claim != nil || op.ResultPath != nil ||
+						(op.State != nil && *op.State == "todo" && (s.PreState == "done" || s.PreState == "canceled" || s.PreState == "doing"))
+				case "claim_id":
+					return s.PreState == "doing" || s.PreState == "error"
+				}
+				return false
+			})
+			after := anyStep(h[fork+1:], func(s stepInfo) bool { return s.Out.Accepted && s.Out.Op.IsMutation() })
+			return rich && (after || h[fork].Out.Op.Kind == "compact")
+		},
+	})
+}
 
 func TestC06(t *testing.T) {
 	RunSeq(t, SeqCheck{
 		Prop: "C06",
 		Profile: Profile{Name: "state-machine", Weights: weightsWith(map[string]int{"set": 40, "claim_id": 14, "new_task": 20, "claim": 8, "sequence": 3, "plan": 1, "compact": 2}),
 			BadRef: 6, Spoil: 5, Results: 3, MinSteps: 6, MaxSteps: 30},
-		Rule: "random command histories (rapid); a history is non-trivial when some request with a state or claim hits a task that is not (todo, unclaimed) or carries >= 2 of {state, claim, --agent}; distinct = distinct sequences of (command, input mode, fields present, target's prior state, verdict, outcome)",
+		Rule: "random command histories (rapid); non-trivial = some request with a state or claim hits a task that is not (todo, unclaimed) or carries >= 2 of {state, claim, --agent}" + distinctRule,
 		NonTrivial: func(h []stepInfo) bool {
-			for _, s := range h {
+			return anyStep(h, func(s stepInfo) bool {
 				op := s.Out.Op
 				if op.State == nil && op.Claim == nil && op.Kind != "claim_id" {
-					continue
+					return false
 				}
 				n := 0
 				if op.State != nil {
@@ -26,8 +98,219 @@ func TestC06(t *testing.T) {
 				if op.Agent != "" {
 					n++
 				}
-				if n >= 2 || (s.PreState != "" && s.PreState != "new" && (s.PreState != "todo" || s.PreClaim != "")) {
+				return n >= 2 || (s.PreState != "" && s.PreState != "new" && (s.PreState != "todo" || s.PreClaim != ""))
+			})
+		},
+	})
+}
+
+func TestC07(t *testing.T) {
+	RunSeq(t, SeqCheck{
+		Prop: "C07",
+		Profile: Profile{Name: "dependencies", Weights: weightsWith(map[string]int{"sequence": 34, "sequence_rm": 12, "plan": 6, "prune_yes": 7, "new_task": 14, "new_epic": 8, "set": 12, "claim": 3, "claim_id": 2}),
+			BadRef: 14, Spoil: 3, Results: 0, MinSteps: 8, MaxSteps: 32},
+		Rule: "random command histories weighted to sequence / sequence rm / plan / prune with ids from every role (live, other kind, pruned, unknown, self); non-trivial = a rejected cycle/self/cross-kind attempt, an accepted removal, or a prune that deletes an edge endpoint" + distinctRule,
+		NonTrivial: func(h []stepInfo) bool {
+			return anyStep(h, func(s stepInfo) bool {
+				op := s.Out.Op
+				switch op.Kind {
+				case "sequence":
+					return !s.Out.Accepted && hasOwner(s, "C07")
+				case "sequence_rm":
+					return s.Out.Accepted && s.Out.Decision == "MUST_ACCEPT"
+				case "prune_yes":
+					if !s.Out.Accepted || s.Out.Post == nil {
+						return false
+					}
+					for id, it := range s.Pre.Items {
+						if s.Out.Post.Items[id] == nil && (len(it.Deps) > 0 || len(it.RDeps) > 0) {
+							return true
+						}
+					}
+				}
+				return false
+			})
+		},
+	})
+}
+
+func TestC09(t *testing.T) {
+	RunSeq(t, SeqCheck{
+		Prop: "C09",
+		Profile: Profile{Name: "prune", Weights: weightsWith(map[string]int{"prune": 8, "prune_yes": 14, "compact": 7, "set": 34, "claim_id": 6, "sequence": 10, "new_task": 16, "new_epic": 6}),
+			BadRef: 22, Spoil: 2, Results: 4, MinSteps: 8, MaxSteps: 34},
+		Rule: "random command histories mixing states and epic memberships with prune / prune --yes / compact and later commands aimed at pruned ids; non-trivial = a prune --yes that removes >= 1 item while >= 1 item stays, followed by a command on a pruned id or a compact" + distinctRule,
+		NonTrivial: func(h []stepInfo) bool {
+			for i, s := range h {
+				if s.Out.Op.Kind != "prune_yes" || !s.Out.Accepted || s.Out.Post == nil {
+					continue
+				}
+				removed := len(s.Pre.Items) - len(s.Out.Post.Items)
+				if removed < 1 || len(s.Out.Post.Items) < 1 {
+					continue
+				}
+				if anyStep(h[i+1:], func(x stepInfo) bool { return x.Out.Op.Kind == "compact" || hasOwner(x, "C09") }) {
 					return true
+				}
+			}
+			return false
+		},
+	})
+}
+
+func TestC10(t *testing.T) {
+	RunSeq(t, SeqCheck{
+		Prop: "C10",
+		Profile: Profile{Name: "failing-commands", Weights: weightsWith(map[string]int{"set": 34, "new_task": 22, "sequence": 16, "plan": 6, "claim_id": 8, "new_epic": 5}),
+			BadRef: 25, Spoil: 45, Results: 25, HoldLock: 6, MinSteps: 6, MaxSteps: 30},
+		Rule: "random command histories in which about half the commands are built to fail (bad state value, blank title, unknown key, malformed / double JSON, unknown / pruned id, illegal transition, missing claim, cycle, self / cross-kind edge, bad result path or summary, lock held by the harness); non-trivial = a failing command that carries >= 2 fields or edges, or targets an existing item" + distinctRule,
+		NonTrivial: func(h []stepInfo) bool {
+			return anyStep(h, func(s stepInfo) bool {
+				if s.Out.Accepted {
+					return false
+				}
+				op := s.Out.Op
+				n := len(strings.Split(fieldSig(op), ","))
+				return n >= 2 || len(op.Refs) >= 3 || (op.Target != nil && s.TargetOK)
+			})
+		},
+	})
+}
+
+func TestC14(t *testing.T) {
+	RunSeq(t, SeqCheck{
+		Prop: "C14",
+		Profile: Profile{Name: "epic-references", Weights: weightsWith(map[string]int{"new_task": 26, "set": 34, "new_epic": 10, "prune_yes": 7, "compact": 4, "plan": 4}),
+			BadRef: 35, Spoil: 3, Results: 2, MinSteps: 6, MaxSteps: 30},
+		Rule: "random command histories where --epic / epic is drawn from {live epic, live task, unknown, pruned epic, pruned task, \"\"} in new task and set (three input modes), with plan, prune, compact; non-trivial = a request whose epic id is not a live epic, or a prune/compact while some epic has members" + distinctRule,
+		NonTrivial: func(h []stepInfo) bool {
+			return anyStep(h, func(s stepInfo) bool {
+				if hasOwner(s, "C14") {
+					return true
+				}
+				if (s.Out.Op.Kind == "prune_yes" || s.Out.Op.Kind == "compact") && s.Out.Accepted {
+					for _, it := range s.Pre.Items {
+						if !it.IsEpic && it.EpicID != "" {
+							return true
+						}
+					}
+				}
+				return false
+			})
+		},
+	})
+}
+
+func c15Shape(s *Snapshot) (pre bool, mixed bool) {
+	todo, held := 0, 0
+	for _, it := range s.Items {
+		if it.IsEpic {
+			continue
+		}
+		switch it.State {
+		case "todo":
+			todo++
+			if it.ClaimedBy != "" {
+				held++
+			}
+		case "doing", "blocked", "error":
+			held++
+		}
+	}
+	epicEdge, cross := false, false
+	for _, it := range s.Items {
+		for _, d := range it.Deps {
+			o := s.Items[d]
+			if o == nil {
+				continue
+			}
+			if it.IsEpic {
+				epicEdge = true
+			} else if it.EpicID != o.EpicID {
+				cross = true
+			}
+		}
+	}
+	return todo > 0 && held == 0, epicEdge && cross
+}
+
+func TestC15(t *testing.T) {
+	RunSeq(t, SeqCheck{
+		Prop: "C15",
+		Profile: Profile{Name: "two-level-graphs", Weights: weightsWith(map[string]int{"sequence": 36, "new_task": 20, "new_epic": 10, "set": 22, "plan": 3, "prune_yes": 3, "claim": 1, "claim_id": 0, "sequence_rm": 5, "compact": 2}),
+			BadRef: 2, Spoil: 0, Results: 0, MinSteps: 10, MaxSteps: 36, EpicPct: 80, SeqEpicPct: 40,
+			StatePool: []string{"done", "canceled", "todo", "todo", "done"}, StatePct: 30, ClaimPct: -1, MixedPct: 55},
+		Rule: "random command histories over two-level graphs (task edges across epics, epic edges, tasks moved between epics, prune, plan); after every step: if some task is todo and none is doing/blocked/error, some task must be ready and `claim` on a copy of the store must not say no_ready; non-trivial = at some step the precondition holds while an epic edge and a task edge between tasks of different epics coexist" + distinctRule,
+		NonTrivial: func(h []stepInfo) bool {
+			return anyStep(h, func(s stepInfo) bool {
+				if s.Out.Post == nil {
+					return false
+				}
+				pre, mixed := c15Shape(s.Out.Post)
+				return pre && mixed
+			})
+		},
+		AfterStep: func(rt *rapid.T, w *World, h []stepInfo) []Violation {
+			post := h[len(h)-1].Out.Post
+			if pre, _ := c15Shape(post); !pre {
+				return nil
+			}
+			probe := CloneStore(w.Root, "c15probe")
+			defer RemoveAll(probe)
+			r := Run(Cmd{Args: []string{"--json", "claim", "--agent", "probe"}, Dir: probe})
+			if !r.OK() {
+				return []Violation{{"C15", "claim failed while unfinished work exists: " + clip(r.Stderr, 200)}}
+			}
+			if strings.Contains(r.Stdout, "no_ready") {
+				return []Violation{{"C15", "claim answers no_ready although a task is todo and nothing is doing, blocked or error"}}
+			}
+			return nil
+		},
+	})
+}
+
+func TestC16(t *testing.T) {
+	RunSeq(t, SeqCheck{
+		Prop: "C16",
+		Profile: Profile{Name: "json-contract", Weights: weightsWith(nil),
+			BadRef: 12, Spoil: 18, Results: 8, HoldLock: 2, MinSteps: 6, MaxSteps: 30},
+		Rule: "random command histories with --json on every command (before or after the subcommand, with --quiet / --verbose, three input modes, succeeding and failing); non-trivial = an accepted mutation whose reply carries state, ids or edges and a failing command in the same history" + distinctRule,
+		NonTrivial: func(h []stepInfo) bool {
+			ok := anyStep(h, func(s stepInfo) bool {
+				if !s.Out.Accepted {
+					return false
+				}
+				switch s.Out.Op.Kind {
+				case "new_task", "set", "claim", "claim_id", "sequence", "plan", "prune_yes":
+					return true
+				}
+				return false
+			})
+			return ok && anyStep(h, func(s stepInfo) bool { return !s.Out.Accepted })
+		},
+	})
+}
+
+func TestC20(t *testing.T) {
+	RunSeq(t, SeqCheck{
+		Prop: "C20",
+		Profile: Profile{Name: "results", Weights: weightsWith(map[string]int{"set": 44, "new_task": 18, "compact": 8, "prune_yes": 5, "claim": 4}),
+			BadRef: 10, Spoil: 4, Results: 60, MinSteps: 6, MaxSteps: 30},
+		Rule: "random command histories in which most set / new task commands attach a result (plain, ./, a/../b, escaping, .ergo, absolute, missing paths; assorted summaries; targets from all roles) followed by state changes, reassignment, prune, repeated compact; non-trivial = a result path that needs cleaning or must be refused, or >= 2 results on one task followed by a compact" + distinctRule,
+		NonTrivial: func(h []stepInfo) bool {
+			if anyStep(h, func(s stepInfo) bool {
+				p := s.Out.Op.ResultPath
+				return p != nil && (hasOwner(s, "C20") || strings.Contains(*p, "..") || strings.HasPrefix(*p, "./"))
+			}) {
+				return true
+			}
+			for i, s := range h {
+				if s.Out.Op.Kind == "compact" && s.Out.Accepted {
+					for _, it := range h[i].Pre.Items {
+						if len(it.Results) >= 2 {
+							return true
+						}
+					}
 				}
 			}
 			return false
